@@ -26,7 +26,7 @@
 (* function of them (RowVal, ColVal, TLVal), so "keeps its descriptor      *)
 (* values" is "the descriptor columns read off the real object equal the   *)
 (* columns computed from the labels".  Cells are self-describing tokens    *)
-(*   Cell(o,c,tl) = 100 o + 10 c + sum_t w[t] 2^(t-1) / d                  *)
+(*   Cell(o,c,tl) = 101 o + 10 c + sum_t w[t] 2^(t-1) / d                  *)
 (* (sum-distinct time code: different bins of source points have different *)
 (* values).  CellAssoc is the core of C11: the stored cell at (row, col,   *)
 (* time) is the token of exactly these three labels.                       *)
@@ -96,8 +96,8 @@ TimeTok(tl) == Norm(SumTo([t \in 1..Len(tl.w) |-> tl.w[t] * 2^(t - 1)], Len(tl.w
 TLVal(tl, k) == IF tl = NoT THEN Absent(k)
                 ELSE CASE k = "time" -> TimeQ(tl) [] k = "phase" -> tl.ph [] k = "bins" -> tl.b
 \* the token of (observation o, channel c, time label tl)
-Cell(o, c, tl) == IF tl = NoT THEN <<100 * o + 10 * c, 1>>
-                  ELSE LET q == TimeTok(tl) IN Norm((100 * o + 10 * c) * q[2] + q[1], q[2])
+Cell(o, c, tl) == IF tl = NoT THEN <<101 * o + 10 * c, 1>>
+                  ELSE LET q == TimeTok(tl) IN Norm((101 * o + 10 * c) * q[2] + q[1], q[2])
 \* the one time label of a cell: a flat object has it on the row or on the column (or nowhere)
 CellTL(row, col, tl) == IF tl # NoT THEN tl ELSE IF row[2] # NoT THEN row[2] ELSE col[2]
 
